@@ -463,6 +463,8 @@ theorem honest_block_with_upgrade_accepted (C : Crypto) (hC : TreeStore.HashWF C
           some ⟨m, n - m, us.map (fun p => RefTree.nodeAt C bs p.1 p.2), [], sig⟩⟩ c.publicKey = .ok cs'
       ∧ Growth.Inv C bs c.tree d.tree cs' n ∧ cs'.upgraded = true ∧ cs'.signature = some sig ∧ cs'.fork = c.tree.fork
       ∧ c.tree.commitable cs' = true :=
-  BlockUpgrade.honest_old_block_upgrade_accepted C hC bs m n c d held h hm0 hmn hn us hup sig hsl hver i hi
+  by
+    obtain ⟨cs', h1, h2, h3, h4, h5, h6, _⟩ := BlockUpgrade.honest_old_block_upgrade_accepted C hC bs m n c d held h hm0 hmn hn us hup sig hsl hver i hi
+    exact ⟨cs', h1, h2, h3, h4, h5, h6⟩
 
 end HC.C03
